@@ -13,7 +13,7 @@ def declare(reg, eng):
     reg.klass("TaskOutputsWorker", [], {"queue": None})
     reg.klass("SignalHandler")
     reg.klass("Service")
-    reg.classes["experiment"]["fields"].update({"workspace": "Workspace", "workdir": "Path", "xplockpath": "Path", "xplock": "opt:FileLock",
+    reg.classes["experiment"]["fields"].update({"workspace": "Workspace", "workdir": "Path", "xplockpath": "Path", "xplock": "opt:AsyncFileLock",
                                                 "server": "opt:Server", "old_experiment": None, "taskOutputsWorker": "opt:TaskOutputsWorker",
                                                 "services": "dict[str,Service]", "central": "opt:SchedulerCentral"})
     reg.classes["SchedulerCentral"]["fields"]["loop"] = "Loop"
@@ -24,10 +24,11 @@ def declare(reg, eng):
     eng.load("experiment.__exit__", "scheduler/base.py")
 
     # externals / opaque callees
-    reg.contract("Connector.lock", params=["self", "path", "max_delay"], defaults={"max_delay": "-1"}, fresh="FileLock", returns="FileLock", modifies=[])
-    reg.contract("FileLock.__enter__", params=["self"], returns="FileLock", modifies=[], ensures=["result is self"], effect="xplock.enter",
+    reg.contracts["Connector.lock"]["params"] = ["self", "path", "max_delay"]
+    reg.contracts["Connector.lock"]["defaults"] = {"max_delay": "-1"}
+    reg.contract("AsyncFileLock.__enter__", params=["self"], returns="AsyncFileLock", modifies=[], ensures=["result is self"], effect="xplock.enter",
                  raises={"Exception": {"when": [], "modifies": []}})       # lock held by another process: refused
-    reg.contract("FileLock.__exit__", params=["self", "a", "b", "c"], modifies=[], effect="xplock.exit")
+    reg.contract("AsyncFileLock.__exit__", params=["self", "a", "b", "c"], modifies=[], effect="xplock.exit")
     reg.contract("Server.start", params=["self"], modifies=[])
     reg.contract("Server.stop", params=["self"], modifies=[])
     reg.contract("Workspace.__enter__", params=["self"], modifies=[])
@@ -67,3 +68,33 @@ def declare(reg, eng):
                                                    "and no_effect('wait')")],
                                 "unlink": [("C16", "False")], "rename": [("C16", "False")]},
                  modifies=None)
+
+    # ------------------------------------------------------------------ tools/jobs.fix_deprecated (C20)
+    eng.load("fix_deprecated", "tools/jobs.py")
+    reg.klass("PathParents")
+    reg.contract("load_job", params=["job_path", "discard_id"], defaults={"discard_id": "True"}, returns="tuple", fresh="tuple", modifies=[],
+                 ensures=["length(result) == 2"], effect="load_job")
+    reg.contract("SerializationContext", params=[], fresh="SerializationContext", returns="SerializationContext", modifies=[])
+    reg.klass("SerializationContext")
+    reg.contract("ConfigInformation.__get_objects__", params=["self", "objects", "context"], returns="list", fresh="list", modifies=[])
+    reg.contract("json.dump", params=["obj", "fp"], modifies=["fs(fp.path)"], effect="json.dump")
+    reg.contract("hexid", params=["job"], returns="str", modifies=[])
+    NOFS = " and ".join(f"no_effect_here('{e}')" for e in ("unlink", "rename", "replace", "symlink_to", "mkdir", "rmtree", "write_text", "json.dump", "touch", "file.write"))
+    reg.contract("fix_deprecated", params=["workpath", "fix", "cleanup"], types={"workpath": "Path", "fix": "bool", "cleanup": "bool"}, no_replay=True,
+                 ensures=[("C20", f"implies(not fix and not cleanup, {NOFS})")],
+                 raises={"Exception": {"when": []}},
+                 effect_guards={
+                     "rmtree": [("C20", "False")],                                   # job data is never deleted
+                     "unlink": [("C20", "issymlink(_arg0)")],                        # only links are removed
+                     "rename": [("C20", "fix and cleanup")],      # (the destination was tested absent before params.json is rewritten; disjointness of the temporary file and the destination is outside the path theory)
+                     "symlink_to": [("C20", "fix and not cleanup and not exists_path(_arg0)")],
+                     "json.dump": [("C20", "fix and cleanup")],
+                     "replace": [("C20", "fix and cleanup")],
+                     "mkdir": [("C20", "fix")]},
+                 modifies=None,
+                 loops={"job_path#1": {"body_post": [("C20", f"implies(not fix and not cleanup, {NOFS})")]},
+                        "job_path#2": {"body_post": [("C20", f"implies(not fix and not cleanup, {NOFS})")]}})
+    reg.contracts["fix_deprecated"]["locals"] = {"job": "opt:Config", "params": "dict"}
+    reg.classes["Identifier"]["fields"]["all"] = "bytes"
+    reg.contract("ConfigInformation.identifier", params=["self"], returns="Identifier", modifies=[])
+    eng.properties["ConfigInformation.identifier"] = True
